@@ -1091,6 +1091,20 @@ def sweep_cases(rng):
                 post = [r for r in post if (rat or r != "r_wts") and (pd == 2 or r not in ("r_tess", "r_cp2d"))]
                 ops = [["new", df0]] + [["g", 0, [r]] for r in fills] + [["g", 0, m] for m in mops] + [["g", 0, [r]] for r in post]
                 out.append({"ops": ops, "kind": "sweep/%s/%s/%s" % (("curve", "surface", "volume")[pd - 1], "rat" if rat else "nonrat", name), "obs": "final"})
+    # cold pairs (rational classes): an edit of the control net followed IMMEDIATELY (no read in between, caches cold) by a setter of
+    # one view (ctrlpts / weights), which has to rebuild the other view from the definition, then read everything
+    for pd in (1, 2, 3):
+        df0 = rand_def(rng, pd, True)
+        T = mut_templates(rng, df0)
+        firsts = [t for t in T if t[0].split("-")[0] in ("set_ctrlpts", "ctrlpts2d", "ctrlpts", "weights", "insert", "transpose", "flip", "refine")]
+        seconds = [t for t in T if t[0] in ("ctrlpts", "weights")]
+        post = [r for r in ["r_wts", "r_cpts", "r_eval", "r_bbox", "r_cp2d"] if pd == 2 or r != "r_cp2d"]
+        for n1, m1 in firsts:
+            for n2, m2 in seconds:
+                if n1.split("-")[0] in ("insert", "refine", "transpose"):
+                    continue    # these change the net size; the stored second template would not fit
+                ops = [["new", df0]] + [["g", 0, m] for m in m1] + [["g", 0, m] for m in m2] + [["g", 0, [r]] for r in post]
+                out.append({"ops": ops, "kind": "coldpair/%s/%s+%s" % (("curve", "surface", "volume")[pd - 1], n1, n2), "obs": "final"})
     for pd in (1, 2, 3):
         d0 = rand_def(rng, pd, pd == 2)
         dim0 = len(d0["cp"][0]) - (1 if d0["rat"] else 0)
